@@ -47,7 +47,7 @@ structure Tokens where
 
 /-- what the interceptor decides for a call of a method of `svc` — unary or streaming alike: both
 chains start with the auth interceptor, which asks the service's override if it has one -/
-def admit (t : Tokens) (svc : Service) (values : List Bytes) : Bool :=
+def allowCall (t : Tokens) (svc : Service) (values : List Bytes) : Bool :=
   match svc with
   | .tables => authorize t.tables values
   | .maintenance => authorize t.maintenance values
